@@ -48,6 +48,13 @@ def gen_cases(ck, n_models, per_model):
                 cases.append(dict(base, factory=fac, ignore=False))
             if r.random() < 0.15:
                 cases.append(dict(base, factory=r.choice(["dict", "filter_none"]), ignore=True))
+            if "recipe" in base and base["recipe"]["fields"] and r.random() < 0.3:
+                # ill-typed stream (correspondence only): a None where a list / map / value is expected
+                import copy
+                hostile = copy.deepcopy(base)
+                n = r.choice(list(hostile["recipe"]["fields"]))
+                hostile["recipe"]["fields"][n] = r.choice([None, None, [], {"__p__": "str", "v": "x"}, {"__p__": "int", "v": 3}])
+                cases.append(dict(hostile, factory="dict", ignore=False))
         models.append({"desc": desc, "src": genmodels.render_source(desc), "classes": [c["name"] for c in desc["classes"]],
                        "enums": [e["name"] for e in desc["enums"]], "cases": cases})
     return models
